@@ -417,9 +417,20 @@ class TrajectoryConstraintsRemover(engines.engine.Engine, CompilerMixin):
         return env.expression_manager.Or(gamma1, conjunction)
 
     def _gamma(self, env, literal, action):
+        em = env.expression_manager
         disjunction = []
         for eff in action.effects:
             cond = eff.condition
+            if not eff.fluent.type.is_bool_type():
+                continue
+            if not eff.value.is_bool_constant():
+                # the assigned value is an expression (e.g. f := g): the effect makes the
+                # fluent true when the value holds and false when it does not
+                if literal == eff.fluent:
+                    disjunction.append(em.And(cond, eff.value))
+                elif literal == em.Not(eff.fluent):
+                    disjunction.append(em.And(cond, em.Not(eff.value)))
+                continue
             if eff.value.is_false():
                 eff = env.expression_manager.Not(eff.fluent)
             else:
